@@ -114,7 +114,6 @@ type Plugin struct {
 	fieldPaths [][]string // list of fields for fast path when only global process fields list is used
 
 	fieldMasksRoot *fieldMasksNode // fields lists converted to a tree in [(*Plugin).gatherFieldMasksTree]
-	emptyFMNode    *fieldMasksNode // nil value node for tree traversal
 
 	hasProcessOrIgnoreFields  bool   // fast check for process ignore fields lists global or mask-specific
 	hasGlobalIgnoreFields     bool   // fast check for global ignore fields list
@@ -370,7 +369,7 @@ func (p *Plugin) traverseTree(event *pipeline.Event, curNode *insaneJSON.Node, c
 				}
 				nextFmNode = _fmNode
 			} else {
-				nextFmNode = p.emptyFMNode
+				nextFmNode = curFmNode.rest
 			}
 		}
 		nextNode := curNode.AsFieldValue()
@@ -381,7 +380,7 @@ func (p *Plugin) traverseTree(event *pipeline.Event, curNode *insaneJSON.Node, c
 				if _fmNode, has := curFmNode.children[strconv.Itoa(i)]; has {
 					nextFmNode = _fmNode
 				} else {
-					nextFmNode = p.emptyFMNode
+					nextFmNode = curFmNode.rest
 				}
 			}
 			if p.traverseTree(event, nextNode, nextFmNode) {
